@@ -13,6 +13,10 @@ impl StateMachine<'_> {
         if !self.test_submodule_log() {
             return Ok(false);
         }
+        // There is no "diff" line in front of a submodule entry: if the file section before it
+        // has no hunks (mode change, empty or binary file), its header is still to be written -
+        // before this entry, and with the mode change that belongs to it.
+        self.handle_pending_line_with_diff_name()?;
         self.handle_additional_cases(State::SubmoduleLog)
     }
 
